@@ -1,3 +1,563 @@
 package server
 
-func ZZVerifStore() {}
+// Store harness (C03, C12, C04): the real legacy pull path (PullModel,
+// download.go), the create / copy / delete handlers and the startup repair,
+// over the controlled file system and the in-process fake registry, under
+// mcrt. This file: common world + C03 (fault sequences of pulls).
+
+import (
+	"bytes"
+	gocontext "context"
+	"crypto/ed25519"
+	"crypto/rand"
+	"crypto/sha256"
+	"encoding/json"
+	"encoding/pem"
+	"fmt"
+	"net/http"
+	gos "os"
+	"path/filepath"
+	"sort"
+	"strings"
+	gotime "time"
+
+	"golang.org/x/crypto/ssh"
+
+	"github.com/ollama/ollama/api"
+	"github.com/ollama/ollama/zzverif/evid"
+	"github.com/ollama/ollama/zzverif/fakereg"
+	"github.com/ollama/ollama/zzverif/mcos"
+	"github.com/ollama/ollama/zzverif/mcrt"
+	mcsync "github.com/ollama/ollama/zzverif/shim/sync"
+)
+
+const (
+	ztHost = "reg.test"
+	ztName = "reg.test/lib/model:tag"
+)
+
+var (
+	ztRoot string // per-process scratch root
+	ztHome string
+)
+
+func ztSetupProcess(tag string) {
+	ztRoot = fmt.Sprintf("/dev/shm/verif-%s-%d", tag, gos.Getpid())
+	ztHome = ztRoot + "-home"
+	gos.MkdirAll(filepath.Join(ztHome, ".ollama"), 0o755)
+	_, priv, _ := ed25519.GenerateKey(rand.Reader)
+	blk, err := ssh.MarshalPrivateKey(priv, "")
+	if err != nil {
+		panic(err)
+	}
+	gos.WriteFile(filepath.Join(ztHome, ".ollama", "id_ed25519"), pem.EncodeToMemory(blk), 0o600)
+	gos.Setenv("HOME", ztHome)
+}
+
+func ztCleanupProcess() {
+	gos.RemoveAll(ztRoot)
+	gos.RemoveAll(ztHome)
+}
+
+// ztResetGlobals: what a fresh server process starts with.
+func ztResetGlobals() {
+	blobDownloadManager = mcsync.Map{}
+	blobUploadManager = mcsync.Map{}
+	intermediateBlobs = map[string]string{}
+}
+
+type ztWorld struct {
+	models string
+	srv    *fakereg.Server
+	blobs  map[string][]byte // digest -> published content
+}
+
+func ztData(size int, variant byte) []byte {
+	b := make([]byte, size)
+	for i := range b {
+		b[i] = variant*32 + byte(i) + 1
+	}
+	return b
+}
+
+type ztLayer struct {
+	MediaType string `json:"mediaType"`
+	Digest    string `json:"digest"`
+	Size      int    `json:"size"`
+}
+
+type ztManifest struct {
+	SchemaVersion int       `json:"schemaVersion"`
+	MediaType     string    `json:"mediaType"`
+	Config        ztLayer   `json:"config"`
+	Layers        []ztLayer `json:"layers"`
+}
+
+func (w *ztWorld) publish(repoTag string, layerSizes []int, configSize int, variant byte) ztManifest {
+	m := ztManifest{SchemaVersion: 2, MediaType: "application/vnd.docker.distribution.manifest.v2+json"}
+	for i, n := range layerSizes {
+		data := ztData(n, variant+byte(i))
+		d := w.srv.AddBlob(data)
+		w.blobs[d] = data
+		m.Layers = append(m.Layers, ztLayer{"application/vnd.ollama.image.model", d, n})
+	}
+	if configSize > 0 {
+		data := ztData(configSize, variant+7)
+		d := w.srv.AddBlob(data)
+		w.blobs[d] = data
+		m.Config = ztLayer{"application/vnd.docker.container.image.v1+json", d, configSize}
+	}
+	b, _ := json.Marshal(m)
+	w.srv.Manifests[repoTag] = b
+	return m
+}
+
+func (w *ztWorld) blobFile(d string) string {
+	return filepath.Join(w.models, "blobs", strings.Replace(d, ":", "-", 1))
+}
+
+func (w *ztWorld) manifestFile(name string) string {
+	// host/ns/model:tag
+	i := strings.LastIndex(name, ":")
+	return filepath.Join(w.models, "manifests", filepath.FromSlash(name[:i]), name[i+1:])
+}
+
+func (m ztManifest) all() []ztLayer {
+	l := append([]ztLayer{}, m.Layers...)
+	if m.Config.Digest != "" {
+		l = append(l, m.Config)
+	}
+	return l
+}
+
+// readManifest: independent reader of a stored manifest; nil if absent or unreadable.
+func (w *ztWorld) readManifest(name string) *ztManifest {
+	b, err := gos.ReadFile(w.manifestFile(name))
+	if err != nil {
+		return nil
+	}
+	var m ztManifest
+	if err := json.Unmarshal(b, &m); err != nil {
+		return nil
+	}
+	return &m
+}
+
+// checkLayers: every layer of m is present with m's size and digest.
+func (w *ztWorld) checkLayers(m *ztManifest) string {
+	for _, l := range m.all() {
+		got, err := gos.ReadFile(w.blobFile(l.Digest))
+		if err != nil {
+			return fmt.Sprintf("layer %s (size %d) is missing", l.Digest[:14], l.Size)
+		}
+		if len(got) != l.Size {
+			return fmt.Sprintf("layer %s has size %d, manifest says %d", l.Digest[:14], len(got), l.Size)
+		}
+		if fmt.Sprintf("sha256:%x", sha256.Sum256(got)) != l.Digest {
+			return fmt.Sprintf("layer %s has the right size %d but content %x instead of %x", l.Digest[:14], l.Size, got, w.blobs[l.Digest])
+		}
+	}
+	return ""
+}
+
+func ztSame(a, b ztManifest) bool {
+	ja, _ := json.Marshal(a.all())
+	jb, _ := json.Marshal(b.all())
+	return bytes.Equal(ja, jb)
+}
+
+func ztNewWorld(faultKinds []string) *ztWorld {
+	gos.RemoveAll(ztRoot)
+	models := filepath.Join(ztRoot, "models")
+	gos.MkdirAll(models, 0o755)
+	gos.Setenv("OLLAMA_MODELS", models)
+	gos.Unsetenv("OLLAMA_NOPRUNE")
+	ztResetGlobals()
+	srv := fakereg.New(ztHost)
+	srv.CDNHost = "cdn.test"
+	srv.ReadSize = 2
+	srv.FaultKinds = faultKinds
+	http.DefaultTransport = srv
+	w := &ztWorld{models: models, srv: srv, blobs: map[string][]byte{}}
+	mcos.E = &mcos.Env{Root: ztRoot}
+	mcrt.OnExecEnd(func() { mcos.E = nil })
+	return w
+}
+
+// ---- C03 -------------------------------------------------------------------------------
+
+type z3Scenario struct {
+	Name      string   `json:"name"`
+	Layers    []int    `json:"layers"`
+	Config    int      `json:"config"`
+	Faults    []string `json:"faults,omitempty"`
+	Challenge []string `json:"challenge,omitempty"`
+	Cancel    bool     `json:"cancel,omitempty"`
+	Prior     bool     `json:"prior,omitempty"`
+	Second    bool     `json:"second,omitempty"` // a second concurrent pull of a model sharing the layer
+	Faulty    int      `json:"faulty_attempts"`
+	Cap       int      `json:"quick_total_cap,omitempty"` // quick tier: total deviations for this scenario (0: the default)
+}
+
+func z3Err(err error) string {
+	if err == nil {
+		return "ok"
+	}
+	s := err.Error()
+	if len(s) > 70 {
+		s = s[:70]
+	}
+	return s
+}
+
+func z3Body(sc z3Scenario) func() {
+	return func() {
+		w := ztNewWorld(sc.Faults)
+		srv := w.srv
+		var old *ztManifest
+		if sc.Prior {
+			m := w.publish("lib/model:tag", sc.Layers, sc.Config, 1)
+			old = &m
+			mcos.E.Frozen = true
+			srv.NoFaultsLeft = true
+			mcrt.Deterministic(true)
+			err := PullModel(gocontext.Background(), ztName, &registryOptions{}, func(api.ProgressResponse) {})
+			mcrt.WaitIdle(false)
+			mcrt.Deterministic(false)
+			if err != nil {
+				mcrt.Fail("C03: setup pull failed: %v", err)
+				return
+			}
+			mcos.E.Frozen = false
+		}
+		served := w.publish("lib/model:tag", sc.Layers, sc.Config, 3)
+		if sc.Second {
+			// another tag sharing the first layer
+			m2 := ztManifest{SchemaVersion: 2, MediaType: served.MediaType, Layers: served.Layers[:1]}
+			b, _ := json.Marshal(m2)
+			srv.Manifests["lib/other:tag"] = b
+		}
+		for attempt := 1; attempt <= sc.Faulty+1; attempt++ {
+			clean := attempt == sc.Faulty+1
+			srv.Faults = !clean && len(sc.Faults) > 0
+			srv.AuthChallenge = nil
+			if !clean {
+				srv.AuthChallenge = sc.Challenge
+			}
+			srv.NoFaultsLeft = clean
+			ctx, cancel := gocontext.WithCancel(gocontext.Background())
+			if sc.Cancel && !clean {
+				mcrt.GoNamed(fmt.Sprintf("cancel%d", attempt), func() {
+					mcrt.Yield("client goes away")
+					mcrt.Observe("cancel")
+					cancel()
+				})
+			}
+			var err2 error
+			var done2 mcrt.WaitGroup
+			if sc.Second && !clean {
+				done2.Add(1)
+				mcrt.GoNamed("pull2", func() {
+					defer done2.Done()
+					// (its client gives up after 1 virtual minute: a pull that joined a download whose preparation failed waits forever otherwise)
+					ctx2, cancel2 := mcrt.WithTimeout(gocontext.Background(), gotime.Minute)
+					defer cancel2()
+					err2 = PullModel(ctx2, "reg.test/lib/other:tag", &registryOptions{}, func(api.ProgressResponse) {})
+				})
+			}
+			err := PullModel(ctx, ztName, &registryOptions{}, func(api.ProgressResponse) {})
+			if clean && err != nil {
+				// "a later retry can still succeed": once everything left over from the earlier attempts has
+				// settled, a fault-free pull must succeed (a pull issued while a cancelled download is still
+				// winding down may legitimately join it and share its error)
+				mcrt.Observe("clean attempt: %v; retrying after quiescence", z3Err(err))
+				mcrt.WaitIdle(false) // (no clock advance: the code leaks running tickers, so "all timers elapsed" never comes)
+				err = PullModel(ctx, ztName, &registryOptions{}, func(api.ProgressResponse) {})
+			}
+			if sc.Second && !clean {
+				done2.Wait()
+				mcrt.Observe("second pull: %v", z3Err(err2))
+				if err2 == nil {
+					if m := w.readManifest("reg.test/lib/other:tag"); m == nil {
+						mcrt.Fail("C03: success-not-stored: the concurrent pull reported success but its manifest is not stored")
+					} else if msg := w.checkLayers(m); msg != "" {
+						mcrt.Fail("C03: success-incomplete: the concurrent pull reported success but %s", msg)
+					}
+				}
+			}
+			mcrt.Observe("attempt %d: %v", attempt, z3Err(err))
+			m := w.readManifest(ztName)
+			if err == nil {
+				if m == nil || !ztSame(*m, served) {
+					mcrt.Fail("C03: success-not-stored: PullModel reported success but the stored manifest is not the one the registry served")
+				}
+				if msg := w.checkLayers(&served); msg != "" {
+					mcrt.Fail("C03: success-incomplete: PullModel reported success (attempt %d) but %s", attempt, msg)
+				}
+			} else {
+				if m != nil {
+					if msg := w.checkLayers(m); msg != "" {
+						mcrt.Fail("C03: failed-pull-resolves-incomplete: PullModel failed (%s) and the name resolves to a manifest of which %s", z3Err(err), msg)
+					}
+					if !ztSame(*m, served) && (old == nil || !ztSame(*m, *old)) {
+						mcrt.Fail("C03: failed-pull-garbage-manifest: the name resolves to a manifest that is neither the old nor the new one")
+					}
+				}
+				if clean {
+					mcrt.Fail("C03: clean-retry-fails: a fault-free pull after %d failed/interrupted attempt(s) fails: %v", sc.Faulty, err)
+				}
+			}
+			cancel()
+			if clean {
+				mcrt.WaitIdle(false)
+			}
+		}
+	}
+}
+
+func z3Scenarios(thorough bool) []z3Scenario {
+	netf := []string{"500", "404", "neterr", "truncate", "flip", "ignore-range"}
+	adversarial := []string{
+		`Bearer realm="https://reg.test/token",service="reg.test",scope="repository:lib/model:pull"`,
+		``, `Bearer`, `Bearer realm=`, `Bearer realm="`, `Bearer realm="https://reg.test/token`, `Bearer realm="https://reg.test/token",service=`,
+		`Bearer service="x" realm="https://reg.test/token"`, `Basic realm="x"`, `Bearer realm="%zz"`,
+	}
+	l := []z3Scenario{
+		{Name: "one-part", Layers: []int{3}, Config: 2, Faults: netf, Faulty: 1},
+		{Name: "three-parts", Layers: []int{10}, Faults: netf, Faulty: 1, Cap: 1},
+		{Name: "three-parts-pairs", Layers: []int{10}, Faults: []string{"500", "truncate"}, Faulty: 1},
+		{Name: "three-parts-cancel", Layers: []int{10}, Cancel: true, Faulty: 1},
+		{Name: "challenges", Layers: []int{3}, Challenge: adversarial, Faulty: 1},
+		{Name: "replace-tag", Layers: []int{10, 3}, Prior: true, Faults: []string{"500", "truncate", "flip"}, Faulty: 1, Cap: 1},
+		{Name: "shared-layer", Layers: []int{10}, Second: true, Faults: []string{"500", "truncate"}, Faulty: 1, Cap: 1},
+		{Name: "empty-layer", Layers: []int{0, 3}, Faults: []string{"500"}, Faulty: 1},
+	}
+	if thorough {
+		l = append(l,
+			z3Scenario{Name: "two-retries", Layers: []int{10}, Faults: netf, Cancel: true, Faulty: 2},
+			z3Scenario{Name: "five-parts", Layers: []int{17}, Config: 2, Faults: []string{"500", "truncate", "flip", "ignore-range"}, Faulty: 1},
+			z3Scenario{Name: "stall", Layers: []int{10}, Faults: []string{"stall"}, Faulty: 1},
+			z3Scenario{Name: "shared-layer-cancel", Layers: []int{10}, Second: true, Cancel: true, Faulty: 1},
+		)
+	}
+	return l
+}
+
+type ztReplay struct {
+	Kind    string       `json:"kind"`
+	C03     *z3Scenario  `json:"c03,omitempty"`
+	C12     *z12Scenario `json:"c12,omitempty"`
+	Choices string       `json:"choices"`
+	Bounds  mcrt.Bounds  `json:"bounds"`
+	Total   int          `json:"total_cap"`
+}
+
+func ztSig(prop, f, mech string) string {
+	s := strings.TrimPrefix(f, prop+": ")
+	if i := strings.Index(s, ":"); i > 0 {
+		s = s[:i]
+	}
+	return prop + "/" + s + "/" + mech
+}
+
+func ztReplayFile(p, prop string) {
+	var rp ztReplay
+	if err := evid.LoadReplay(p, &rp); err != nil {
+		fmt.Println("replay:", err)
+		gos.Exit(2)
+	}
+	var body func()
+	if rp.Kind == "c03" {
+		body = z3Body(*rp.C03)
+		js, _ := json.Marshal(rp.C03)
+		fmt.Printf("scenario %s\n", js)
+	} else {
+		body = z12Body(*rp.C12)
+		js, _ := json.Marshal(rp.C12)
+		fmt.Printf("scenario %s\n", js)
+	}
+	x := &mcrt.Explorer{Bounds: rp.Bounds, TotalCap: rp.Total, Body: body, Cfg: mcrt.Config{MaxSteps: 30000}, NoCache: true}
+	res, labels := x.Replay(mcrt.DecodeChoices(rp.Choices))
+	ztCleanupProcess()
+	for _, l := range labels {
+		fmt.Println("  choice", l)
+	}
+	for _, t := range res.Trace {
+		fmt.Println(t)
+	}
+	bad := false
+	for _, f := range res.Failures {
+		if strings.HasPrefix(f, prop+":") {
+			fmt.Println("FAILS:", f)
+			bad = true
+		}
+	}
+	for _, pn := range res.Panics {
+		fmt.Println("PANIC:", pn.Value, "\n", pn.Stack)
+		bad = true
+	}
+	if bad {
+		gos.Exit(1)
+	}
+	fmt.Println("holds on this execution")
+	gos.Exit(0)
+}
+
+// ztExplore runs the common coordinator/worker protocol for mcrt scenarios.
+func ztExplore(r *evid.Run, prop string, names []string, mk func(name string) (func(), any, string), bounds mcrt.Bounds, capOf func(name string) int, budget gotime.Duration, replayOf func(name, choices string) ztReplay) {
+	deadline := gotime.Now().Add(budget)
+	onExec := func(sub *evid.Run, name string, x *mcrt.Explorer) func([]int, *mcrt.Result) {
+		return func(choices []int, res *mcrt.Result) {
+			if res.Pruned {
+				return
+			}
+			key := name + "\n" + strings.Join(res.Log, "\n")
+			if sub.Distinct("outcome", key) {
+				if strings.Contains(key, "fault") || strings.Contains(key, "cancel") || strings.Contains(key, "CRASH") {
+					sub.Distinct("nontrivial", key)
+				}
+				if sub.WantSample() {
+					sub.Sample(map[string]any{"scenario": name, "log": res.Log})
+				} else {
+					sub.Sample(nil)
+				}
+			}
+			var fails []string
+			for _, f := range res.Failures {
+				if strings.HasPrefix(f, prop+":") {
+					fails = append(fails, f)
+				}
+			}
+			for _, p := range res.Panics {
+				fails = append(fails, prop+": panic in "+p.Thread+": "+strings.SplitN(p.Value, "\n", 2)[0])
+			}
+			if res.Horizon {
+				fails = append(fails, prop+": no-termination: the operation did not finish within the step horizon")
+			}
+			if len(fails) == 0 {
+				return
+			}
+			if !x.Confirm(choices, res, 5) {
+				sub.Extra("machinery_errors", []string{"nondeterministic replay in " + name + " " + mcrt.EncodeChoices(choices)})
+				return
+			}
+			_, scv, mech := mk(name)
+			js, _ := json.Marshal(scv)
+			sig := ztSig(prop, fails[0], mech)
+			if strings.Contains(fails[0], "panic in") {
+				// panic site: first frame inside the server package
+				site := "?"
+				for _, p := range res.Panics {
+					for _, ln := range strings.Split(p.Stack, "\n") {
+						if strings.Contains(ln, "ollama/server.") && !strings.Contains(ln, "zz_verif") {
+							site = strings.TrimSpace(ln)
+							if i := strings.Index(site, "("); i > 0 {
+								site = site[:i]
+							}
+							site = site[strings.LastIndex(site, ".")+1:]
+							break
+						}
+					}
+					break
+				}
+				sig = prop + "/panic/" + site
+			}
+			sub.Violation(sig, strings.Join(fails, "\n")+"\nscenario "+string(js)+"\nchoices "+mcrt.EncodeChoices(choices)+"\nlog:\n  "+strings.Join(res.Log, "\n  "),
+				replayOf(name, mcrt.EncodeChoices(choices)))
+		}
+	}
+	var items []string
+	if !evid.IsWorker() {
+		for _, n := range names {
+			body, _, _ := mk(n)
+			x := &mcrt.Explorer{Bounds: bounds, TotalCap: capOf(n), Body: body, Cfg: mcrt.Config{MaxSteps: 30000}}
+			x.OnExec = onExec(r, n, x)
+			for _, p := range x.Roots() {
+				items = append(items, n+"|"+mcrt.EncodeChoices(p))
+			}
+			r.Add("evaluations", x.Execs)
+			r.Add("transitions", x.Transitions)
+		}
+		sort.SliceStable(items, func(i, j int) bool { return len(items[i]) < len(items[j]) })
+	}
+	r.Fanout(items, evid.FanoutOpts{Env: []string{"GOMAXPROCS=2"}, MemLimitMB: 4096}, func(item string, sub *evid.Run) {
+		parts := strings.SplitN(item, "|", 2)
+		body, _, _ := mk(parts[0])
+		x := &mcrt.Explorer{Bounds: bounds, TotalCap: capOf(parts[0]), Body: body, Cfg: mcrt.Config{MaxSteps: 30000}, Deadline: deadline}
+		x.OnExec = onExec(sub, parts[0], x)
+		x.Explore(mcrt.DecodeChoices(parts[1]))
+		sub.Add("evaluations", x.Execs)
+		sub.Add("transitions", x.Transitions)
+		sub.Add("pruned_by_hb_cache", x.PrunedExecs)
+		if x.Stopped {
+			sub.NotExhaustive("time budget reached in " + item)
+		}
+	})
+}
+
+func ZZVerifC03() {
+	r := evid.Start("C03", "fault_enumeration")
+	thorough := evid.Thorough()
+	ztSetupProcess("c03")
+	defer ztCleanupProcess()
+	if p := evid.ReplayPath(); p != "" {
+		ztReplayFile(p, "C03")
+		return
+	}
+	scs := z3Scenarios(thorough)
+	by := map[string]z3Scenario{}
+	var names []string
+	for _, s := range scs {
+		by[s.Name] = s
+		names = append(names, s.Name)
+	}
+	var bounds mcrt.Bounds
+	bounds[mcrt.Fault] = 1
+	bounds[mcrt.Preempt] = 1
+	bounds[mcrt.Switch] = 1
+	bounds[mcrt.Time] = 1
+	total := 2
+	budget := 100 * gotime.Second
+	if thorough {
+		bounds[mcrt.Fault] = 2
+		bounds[mcrt.Preempt] = 2
+		total = 3
+		budget = 18 * gotime.Minute
+	}
+	mk := func(n string) (func(), any, string) {
+		sc := by[n]
+		mech := "pull"
+		if sc.Challenge != nil {
+			mech = "auth"
+		}
+		return z3Body(sc), sc, mech
+	}
+	capOf := func(n string) int {
+		if c := by[n].Cap; c > 0 && !thorough {
+			return c
+		}
+		return total
+	}
+	ztExplore(r, "C03", names, mk, bounds, capOf, budget, func(n, ch string) ztReplay {
+		sc := by[n]
+		return ztReplay{Kind: "c03", C03: &sc, Choices: ch, Bounds: bounds, Total: capOf(n)}
+	})
+	r.Rule("for each scenario (part layouts 1/3/5 parts with the part size scaled to 4 bytes, config layer, empty layer, replaced tag, a concurrent pull sharing a layer, adversarial auth challenges) every execution of [faulty attempt(s) -> fault-free attempt] of the real PullModel within the deviation bounds: per-request registry/CDN faults (5xx, 404, reset, truncated or flipped body, Range ignored, stall), client cancellation at any point, interleavings of the download goroutines and timers. Non-trivial = distinct executions in which a fault or a cancellation occurred.")
+	r.Extra("bounds", fmt.Sprintf("%s; total deviations <= %d (scenarios with quick_total_cap: that value in the quick tier)", bounds.String(), total))
+	r.Assume("minDownloadPartSize is scaled from 100 MB to 4 bytes by the instrumenter (literal only), so that multi-part logic runs on 10-byte layers",
+		"the stored manifest is compared semantically (layer and config digests and sizes): PullModel re-marshals it",
+		"manifest bodies are never corrupted (a flipped manifest would itself be what the registry served)")
+	r.Finish()
+}
+
+// placeholders until the C12 file is added
+type z12Scenario struct{ Name string }
+
+func z12Body(sc z12Scenario) func() { return func() {} }
+
+func ZZVerifStore() {
+	switch gos.Getenv("VERIF_ID") {
+	case "C03", "store", "":
+		ZZVerifC03()
+	}
+}
